@@ -234,9 +234,8 @@ Conversion<Unit::EnergyFlux, Unit::EnergyFlux::InchPoundPerSquareInchPerSecond>:
 }
 
 template <typename NumericType>
-inline const std::
-    map<Unit::EnergyFlux, std::function<void(NumericType* values, const std::size_t size)>>
-        MapOfConversionsFromStandard<Unit::EnergyFlux, NumericType>{
+inline constexpr auto MapOfConversionsFromStandard<Unit::EnergyFlux, NumericType>{
+  MakeConversionTable<Unit::EnergyFlux, NumericType>({
           {Unit::EnergyFlux::WattPerSquareMetre,
            Conversions<Unit::EnergyFlux, Unit::EnergyFlux::WattPerSquareMetre>::
                FromStandard<NumericType>},
@@ -249,12 +248,12 @@ inline const std::
           {Unit::EnergyFlux::InchPoundPerSquareInchPerSecond,
            Conversions<Unit::EnergyFlux, Unit::EnergyFlux::InchPoundPerSquareInchPerSecond>::
                FromStandard<NumericType>},
+})
 };
 
 template <typename NumericType>
-inline const std::
-    map<Unit::EnergyFlux, std::function<void(NumericType* const values, const std::size_t size)>>
-        MapOfConversionsToStandard<Unit::EnergyFlux, NumericType>{
+inline constexpr auto MapOfConversionsToStandard<Unit::EnergyFlux, NumericType>{
+  MakeConversionTable<Unit::EnergyFlux, NumericType>({
           {Unit::EnergyFlux::WattPerSquareMetre,
            Conversions<Unit::EnergyFlux, Unit::EnergyFlux::WattPerSquareMetre>::
                ToStandard<NumericType>},
@@ -267,6 +266,7 @@ inline const std::
           {Unit::EnergyFlux::InchPoundPerSquareInchPerSecond,
            Conversions<Unit::EnergyFlux, Unit::EnergyFlux::InchPoundPerSquareInchPerSecond>::
                ToStandard<NumericType>},
+})
 };
 
 }  // namespace Internal
